@@ -90,9 +90,8 @@ theorem sliceLen_full (n : Nat) : sliceLen n none none none = n := by
   · rw [Nat.div_one]; omega
   · omega
 
-/-- **`__getitem__`, int in a matrix position (as the code is), partial**: for a NON-negative in-range int the
-rewriting `i ↦ slice(i, i+1)` selects exactly row `i`. -/
-theorem intToSlice_nonneg_partial (n i : Nat) (h : i < n) :
+/-- for a non-negative in-range int, `slice(i, i+1)` selects exactly row `i` (helper statement) -/
+theorem intSlice_nonneg (n i : Nat) (h : i < n) :
     sliceIndices n (some (i : Int)) (some ((i : Int) + 1)) none = [i] := by
   have h1 : sliceStart n (some (i : Int)) = i := by
     simp only [sliceStart, clampBound]; split <;> omega
@@ -102,22 +101,26 @@ theorem intToSlice_nonneg_partial (n i : Nat) (h : i < n) :
     unfold sliceLen; simp only [h1, h2, sliceStep]; simp
   simp [sliceIndices, h3, h1, sliceStep]
 
-/-- **D06 counterexample (every size)**: the int `-1` is valid for every `n ≥ 1` (torch selects row `n-1`), but the
-library's rewriting yields `slice(-1, 0)`, which is empty for every `n`. -/
-theorem intToSlice_negInt_counterexample (n : Nat) :
-    intToSlice (-1) = Item.slice (some (-1)) (some 0) none ∧ sliceLen n (some (-1)) (some 0) none = 0 := by
+/-- **`__getitem__`, int in a matrix position (code as of 11686d1: `if i < 0: i += size; slice(i, i + 1)`)**:
+for EVERY valid int of every size — negative ones included — the rewriting is a slice that selects exactly the
+row/column torch's `select` reads (`wrap n i`), so the later `squeeze` returns the torch result. -/
+theorem intToSlice_selects (n : Nat) (i : Int) (h : -(n : Int) ≤ i ∧ i < n) :
+    intToSlice n i = Item.slice (some (wrap n i : Int)) (some ((wrap n i : Int) + 1)) none ∧
+    sliceIndices n (some (wrap n i : Int)) (some ((wrap n i : Int) + 1)) none = [wrap n i] ∧ wrap n i < n := by
+  have hw : ((wrap n i : Nat) : Int) = if i < 0 then i + n else i := by
+    unfold wrap; split <;> omega
+  have hlt : wrap n i < n := by unfold wrap; split <;> omega
+  refine ⟨?_, intSlice_nonneg n (wrap n i) hlt, hlt⟩
+  unfold intToSlice; simp only [hw]
+
+/-- statement about the PREVIOUS code (before 11686d1, defect D06): `-1` is valid for every `n ≥ 1`, but the old
+rewriting gave `slice(-1, 0)`, empty for every `n`.  A re-introduction makes `generated_arith_table` fail. -/
+theorem intToSliceOld_negInt_counterexample (n : Nat) :
+    intToSliceOld (-1) = Item.slice (some (-1)) (some 0) none ∧ sliceLen n (some (-1)) (some 0) none = 0 := by
   refine ⟨rfl, ?_⟩
   unfold sliceLen sliceStart sliceStop clampBound
   simp only
   split <;> simp_all <;> omega
-
-/-- the repaired rewriting (normalise the int first, `notes/C03_fix_1.diff`) selects exactly the torch row for
-every valid int, negative ones included. -/
-theorem intToSliceFixed_selects (n : Nat) (i : Int) (h : -(n : Int) ≤ i ∧ i < n) :
-    intToSliceFixed n i = Item.slice (some (wrap n i : Int)) (some ((wrap n i : Int) + 1)) none ∧
-    sliceIndices n (some (wrap n i : Int)) (some ((wrap n i : Int) + 1)) none = [wrap n i] := by
-  refine ⟨rfl, intToSlice_nonneg_partial n (wrap n i) ?_⟩
-  unfold wrap; split <;> omega
 
 /-- **Toeplitz `_get_indices`**: for in-range `i, j` the looked-up column entry is `|i - j|` (the symmetric
 Toeplitz definition), for every size. -/
@@ -221,10 +224,10 @@ theorem batchRepeat_entry (α : Type) (base : List α) (r b : Nat) (hb : b < r *
 
 /-- **Cat: `idx_to_tensor_idx` + cumulative offsets**: global position `i` of a concatenation is entry
 `local` of piece `piece` — for any number and sizes of pieces. -/
-theorem cat_offsets (α : Type) (pieces : List (List α)) (i : Nat) (hi : i < (pieces.map List.length).foldl (· + ·) 0) :
+theorem cat_offsets (α : Type) (pieces : List (List α)) (i : Nat) (hi : i < sumNat (pieces.map List.length)) :
     pieces.flatten[i]? = (pieces.getD (catLocate (pieces.map List.length) i).1 [])[(catLocate (pieces.map List.length) i).2]? := by
   induction pieces generalizing i with
-  | nil => simp at hi
+  | nil => simp [sumNat] at hi
   | cons p r ih =>
     simp only [List.map_cons, catLocate, List.flatten_cons]
     by_cases h : i < p.length
@@ -236,56 +239,94 @@ theorem cat_offsets (α : Type) (pieces : List (List α)) (i : Nat) (hi : i < (p
         intro l; induction l with
         | nil => intro a; simp
         | cons x t iht => intro a; simp only [List.foldl_cons]; rw [iht (a + x), iht (0 + x)]; omega
-      have hi2 : i - p.length < (r.map List.length).foldl (· + ·) 0 := by
-        simp only [List.map_cons, List.foldl_cons] at hi
+      have hi2 : i - p.length < sumNat (r.map List.length) := by
+        simp only [sumNat, List.map_cons, List.foldl_cons] at hi ⊢
         rw [hsum] at hi; omega
       rw [ih (i - p.length) hi2]
       simp
 
-/-- **D07 counterexample**: two pieces of 2 and 3 rows, `op[1:5]` (explicit stop == size): `_split_slice` computes
-`5 % 5 = 0` and asks the FIRST piece for rows `1:0` (empty), whereas the slice covers rows 1..4
-(piece 0 row 1 up to piece 1 row 3 exclusive-stop 3). -/
-theorem splitSlice_stopEqSize_counterexample :
-    splitSliceBounds [2, 3] (some 1) (some 5) = (0, 1, 1, 0) ∧
-    splitSliceBoundsFixed [2, 3] (some 1) (some 5) = (0, 1, 1, 3) ∧
-    sliceIndices 5 (some 1) (some 5) none = [1, 2, 3, 4] := by decide
+/-- cumulative offsets: the global index is the sizes of the pieces before `piece` plus the local index -/
+theorem catLocate_cum (sizes : List Nat) : ∀ i, i < sumNat sizes →
+    sumNat (sizes.take (catLocate sizes i).1) + (catLocate sizes i).2 = i := by
+  have hsum : ∀ (l : List Nat) (a : Nat), l.foldl (· + ·) a = a + l.foldl (· + ·) 0 := by
+    intro l; induction l with
+    | nil => intro a; simp
+    | cons x t iht => intro a; simp only [List.foldl_cons]; rw [iht (a + x), iht (0 + x)]; omega
+  induction sizes with
+  | nil => intro i hi; simp [sumNat] at hi
+  | cons s r ih =>
+    intro i hi
+    simp only [catLocate]
+    by_cases h : i < s
+    · simp [h, sumNat]
+    · simp only [h, if_false]
+      have hi2 : i - s < sumNat r := by
+        simp only [sumNat, List.foldl_cons] at hi ⊢; rw [hsum] at hi; omega
+      have := ih (i - s) hi2
+      simp only [sumNat, List.take_succ_cons, List.foldl_cons] at this ⊢
+      rw [hsum]; omega
 
-/-- D07, over-long negative start (`op[-7:2]` on 5 rows): `-7 % 5 = 3` instead of clamping to 0. -/
-theorem splitSlice_overlong_counterexample :
-    (splitSliceBounds [2, 3] (some (-7)) (some 2)).2.1 = 1 ∧ (splitSliceBounds [2, 3] (some (-7)) (some 2)).1 = 1 ∧
-    sliceIndices 5 (some (-7)) (some 2) none = [0, 1] := by decide
+/-- **`CatLinearOperator._split_slice` (code as of d38a2f1, bounds via `slice.indices`)** — full statement: for every
+list of piece sizes and EVERY slice `a:b` (None / negative / over-long bounds, explicit stop == size) that selects
+at least one element, the first piece and the start inside it are those of global row `start`, the last piece is
+the one holding global row `stop - 1`, and the stop inside it is that row's local index + 1 — where
+`start, stop` are Python's clamped bounds.  With `cat_offsets` this is exactly torch's `x[a:b]` on the concatenation. -/
+theorem splitSlice_inRange (sizes : List Nat) (a b : Option Int)
+    (h : sliceStart (sumNat sizes) a < sliceStop (sumNat sizes) b) :
+    splitSliceBounds sizes a b =
+      ((catLocate sizes (sliceStart (sumNat sizes) a)).1, (catLocate sizes (sliceStart (sumNat sizes) a)).2,
+       (catLocate sizes (sliceStop (sumNat sizes) b - 1)).1, (catLocate sizes (sliceStop (sumNat sizes) b - 1)).2 + 1) := by
+  have hstop : sliceStop (sumNat sizes) b ≤ sumNat sizes := by
+    unfold sliceStop; split
+    · exact Nat.le_refl _
+    · exact clampBound_le _ _
+  have h0 : ¬ (sliceStop (sumNat sizes) b = 0) := by omega
+  have hc := catLocate_cum sizes (sliceStop (sumNat sizes) b - 1) (by omega)
+  simp only [splitSliceBounds, splitFrom, h0, if_false]
+  refine Prod.ext rfl (Prod.ext rfl (Prod.ext rfl ?_))
+  simp only
+  omega
 
-/-- **`_split_slice`, partial**: when the bounds are in `[0, size)` with `start < stop < size`… the `%` normalisation
-is the identity, so first/last piece and local bounds are those of `catLocate` (the repaired function). -/
-theorem splitSlice_inRange_partial (sizes : List Nat) (a b : Nat)
-    (hab : a < b) (hb : b < sizes.foldl (· + ·) 0) :
-    (splitSliceBounds sizes (some (a : Int)) (some (b : Int))).1 = (catLocate sizes a).1 ∧
-    (splitSliceBounds sizes (some (a : Int)) (some (b : Int))).2.1 = (catLocate sizes a).2 ∧
-    (splitSliceBounds sizes (some (a : Int)) (some (b : Int))).2.2.1 = (catLocate sizes (b - 1)).1 := by
-  have ha' : pyMod (a : Int) (sizes.foldl (· + ·) 0) = a := by
-    unfold pyMod
-    rw [Int.emod_eq_of_lt (by omega) (by omega)]; simp
-  have hb' : pyMod (b : Int) (sizes.foldl (· + ·) 0) = b := by
-    unfold pyMod
-    rw [Int.emod_eq_of_lt (by omega) (by omega)]; simp
-  have hb0 : ¬ (b = 0) := by omega
-  simp [splitSliceBounds, ha', hb', hb0]
+/-- statements about the PREVIOUS code (`% cat_size`, defect D07) next to the current code on the same inputs:
+`op[1:5]` (stop == size) on pieces of 2 and 3 rows, and `op[-7:2]` (over-long negative start). -/
+theorem splitSliceOld_counterexamples :
+    splitSliceBoundsOld [2, 3] (some 1) (some 5) = (0, 1, 1, 0) ∧
+    splitSliceBounds [2, 3] (some 1) (some 5) = (0, 1, 1, 3) ∧
+    splitSliceBoundsOld [2, 3] (some (-7)) (some 2) = (1, 1, 0, 2) ∧
+    splitSliceBounds [2, 3] (some (-7)) (some 2) = (0, 0, 0, 2) ∧
+    sliceIndices 5 (some 1) (some 5) none = [1, 2, 3, 4] ∧ sliceIndices 5 (some (-7)) (some 2) none = [0, 1] := by decide
+
+/-- **Kronecker `_get_indices`** — for ANY number of factors of any (also non-square) sizes: multiplying, in the
+library's order (`res = sub_res * res`), each factor's entry at the indices produced by the chain
+`factor //= n_k ; idx_k = (i div factor) fmod n_k` yields entry `(i, j)` of `A₁ ⊗ A₂ ⊗ … ⊗ A_P`
+(recursive definition `kronSpec`), for every in-range `i, j`.  Induction on the factor list. -/
+theorem kron_getIndices (fs : List Factor) (i j : Nat)
+    (hi : i < prodNat (rowsOf fs)) (hj : j < prodNat (colsOf fs)) :
+    kronModel fs i j = kronSpec fs i j := by
+  have h := kron_go fs i j (by omega) (by omega)
+  rw [Nat.mod_eq_of_lt hi, Nat.mod_eq_of_lt hj] at h
+  exact h
+
+/-- the hypotheses of `kron_getIndices` are satisfiable by a non-trivial instance (2×3 ⊗ 2×2, entry (3, 5)) -/
+example : kronModel [(fun a b => (a : Int) + 2 * b + 1, 2, 3), (fun a b => (a : Int) * 3 + b + 1, 2, 2)] 3 5
+    = ((1 : Int) + 2 * 2 + 1) * (1 * 3 + 1 + 1) := by decide
 
 /-- **Translator obligation**: the index arithmetic extracted (Python `ast`) from /repo's working tree — which
 operations, with which rounding mode, in which order, each class's `_get_indices` / `_split_slice` and the
 `__getitem__` int rewriting use — is exactly the arithmetic mirrored by `kronIdx` (floor-div then fmod per
 factor), `toepIdx` (sub, fmod, abs), `blockDiagIdx` (div, div, fmod, fmod, eq), `blockInterIdx` (fmod, fmod,
-div, div, eq), `batchRepeatIdx` (fmod), `splitSliceBounds` (`%`, `%`) and `intToSlice` (`slice(i, i + 1)`). -/
+div, div, eq), `batchRepeatIdx` (fmod), `splitSliceBounds` (`slice.indices`) and `intToSlice` (`if i < 0: i += size`, `slice(i, i + 1)`). -/
 theorem generated_arith_table : LinOp.Generated.C03.table = [
     ("KroneckerProductLinearOperator._get_indices", ["//=", "//=", "fmod", "div:floor", "fmod", "div:floor"]),
     ("ToeplitzLinearOperator._get_indices", ["abs", "fmod", "-"]),
     ("BlockDiagLinearOperator._get_indices", ["div:floor", "div:floor", "fmod", "fmod", "eq"]),
     ("BlockInterleavedLinearOperator._get_indices", ["fmod", "fmod", "div:floor", "div:floor", "eq"]),
     ("BatchRepeatLinearOperator._get_indices", ["-", "-", "fmod"]),
-    ("CatLinearOperator._split_slice", ["%", "%", "-", "-", "-", "-", "-"]),
+    ("CatLinearOperator._split_slice", ["indices", "-", "-", "-", "-", "-"]),
     ("MaskedLinearOperator._get_indices", ["arange", "arange"]),
     ("LinearOperator.__getitem__.int_to_slice",
-      ["slice(col_index, col_index + 1, None)", "slice(row_index, row_index + 1, None)"])] := by
+      ["if col_index < 0: col_index += self.size(-1)", "if row_index < 0: row_index += self.size(-2)",
+       "slice(col_index, col_index + 1, None)", "slice(row_index, row_index + 1, None)"])] := by
   decide +kernel
 
 end LinOp.C03
